@@ -150,3 +150,4 @@ def set_task(task_name: str) -> EvaluationTask:
     for task in EvaluationTask:
         if task_name == task.value:
             return task
+    raise ValueError(f"Unexpected value: {task_name}")
